@@ -130,7 +130,7 @@ func soak(dur time.Duration, seed uint64, scratch string) {
 	var commits int64
 	wrap := &lib.Wrap{KvStorage: base, NoTTL: true, CommitFault: func() (error, bool) {
 		n := atomic.AddInt64(&commits, 1)
-		if n%41 == 0 {
+		if n%11 == 0 { // an unknown outcome every few commits keeps the retry queue populated
 			return storage.ErrUncertainResult, n%2 == 0
 		}
 		return nil, false
@@ -287,6 +287,15 @@ func soak(dur time.Duration, seed uint64, scratch string) {
 				_, _ = bs.Compact(ctx, &proto.CompactRequest{Revision: cur - uint64(r.Intn(10)) - 1})
 			}
 			time.Sleep(time.Duration(10+r.Intn(30)) * time.Millisecond)
+		}
+	})
+
+	// clients that compact in a tight loop: Compact first looks at the head of the retry queue (the queued
+	// uncertain event) and only then touches the engine, so these reads are not ordered by the engine's
+	// mutex against writers that have just been handed a recycled object
+	spawn(3, func(r *lib.Rand) {
+		for alive() {
+			_, _ = bs.Compact(ctx, &proto.CompactRequest{Revision: 1})
 		}
 	})
 
@@ -532,7 +541,7 @@ func main() {
 	}
 
 	// ---- (2) the race soak
-	soakDur := 6 * time.Second
+	soakDur := 10 * time.Second
 	switch args.Tier {
 	case "thorough":
 		soakDur = 60 * time.Second
